@@ -359,6 +359,29 @@ impl<'tcx> Interp<'tcx> {
                     let hi = x.lo.abs().max(x.hi.abs()).min(x.ty.max());
                     return one(Val::Int(IntV::new(lo, hi, x.ty).with_taint(x.taint)));
                 }
+                ("unsigned_abs", Some(x)) if x.lo >= 0 && x.lin.is_some() => {
+                    let mut r = x.clone();
+                    r.ty = ity_of(ret)?;
+                    r.canon = None;
+                    return one(Val::Int(r));
+                }
+                ("abs_diff", Some(x)) if x.lin.is_some() || self.int_arg(st, a.get(1)?).map(|y| y.lin.is_some()).unwrap_or(false) => {
+                    let y = self.int_arg(st, a.get(1)?)?;
+                    let it = ity_of(ret)?;
+                    // decided order: the absolute difference is the plain difference (keeps exact forms)
+                    let d = if x.lo >= y.hi { Some(ops::arith(Arith::Sub, &x, &y, ITy::I128, false, &at).0) } else if y.lo >= x.hi { Some(ops::arith(Arith::Sub, &y, &x, ITy::I128, false, &at).0) } else { None };
+                    if let Some(mut d) = d {
+                        if d.lo >= it.min() && d.hi <= it.max() {
+                            d.ty = it;
+                            return one(Val::Int(d));
+                        }
+                    }
+                    let d1 = x.lo - y.hi;
+                    let d2 = x.hi - y.lo;
+                    let lo = if d1 <= 0 && d2 >= 0 { 0 } else { d1.abs().min(d2.abs()) };
+                    let hi = d1.abs().max(d2.abs());
+                    return one(Val::Int(IntV::new(lo, hi, it).with_taint(x.taint | y.taint)));
+                }
                 ("unsigned_abs", Some(x)) => {
                     let lo = if x.lo <= 0 && x.hi >= 0 { 0 } else { x.lo.abs().min(x.hi.abs()) };
                     let hi = x.lo.unsigned_abs().max(x.hi.unsigned_abs()) as i128;
@@ -457,6 +480,24 @@ impl<'tcx> Interp<'tcx> {
                     let (lo, hi) = if m == "min" { (x.lo.min(y.lo), x.hi.min(y.hi)) } else { (x.lo.max(y.lo), x.hi.max(y.hi)) };
                     return one(Val::Int(IntV::new(lo, hi, x.ty).with_taint(x.taint | y.taint)));
                 }
+                ("to_be_bytes", Some(x)) => {
+                    // big-endian: the little-endian bytes reversed
+                    let le = self.model_call(st, &n.replace("to_be_bytes", "to_le_bytes"), _def, gargs, _inst, a, tys, ret)?;
+                    return Some(le.into_iter().map(|(s, v)| {
+                        let v = match v {
+                            Val::Arr(arr) => {
+                                let mut r = ArrV::uniform(Val::Bot, arr.len);
+                                for i in 0..arr.len {
+                                    r.over.insert(arr.len - 1 - i, arr.get(i).clone());
+                                }
+                                r.compress();
+                                Val::Arr(Rc::new(r))
+                            }
+                            other => other,
+                        };
+                        (s, v)
+                    }).collect());
+                }
                 ("to_le_bytes", Some(x)) => {
                     let nb = (x.ty.bits / 8) as u64;
                     let mut arr = ArrV::uniform(Val::Int(IntV::new(0, 255, ITy::U8).with_taint(x.taint)), nb);
@@ -473,7 +514,9 @@ impl<'tcx> Interp<'tcx> {
                             } else if let Some(c) = x.is_const() {
                                 IntV::konst((c >> sh) & 0xff, ITy::U8)
                             } else {
-                                IntV::new(0, 255, ITy::U8)
+                                // byte i = (x >> 8i) & 255 through the low/high split of an exact form
+                                let shifted = if sh == 0 { x.clone() } else { ops::shr(&x, &IntV::konst(sh as i128, ITy::U32), x.ty, &at) };
+                                ops::low_bits_exact(&shifted, 8, ITy::U8, &at).unwrap_or_else(|| IntV::new(0, 255, ITy::U8))
                             };
                             arr.over.insert(i, Val::Int(b.with_taint(x.taint)));
                         }
